@@ -20,6 +20,7 @@ import (
 	"errors"
 	"fmt"
 	"os"
+	"path/filepath"
 	"sort"
 	"strconv"
 	"strings"
@@ -34,9 +35,11 @@ import (
 
 	"github.com/openfga/openfga/internal/verifharness/lib/rec"
 	"github.com/openfga/openfga/internal/verifharness/lib/scen"
+	"github.com/openfga/openfga/internal/verifharness/lib/storegen"
 	"github.com/openfga/openfga/pkg/logger"
 	"github.com/openfga/openfga/pkg/server"
 	serverconfig "github.com/openfga/openfga/pkg/server/config"
+	"github.com/openfga/openfga/pkg/storage"
 	"github.com/openfga/openfga/pkg/storage/memory"
 )
 
@@ -59,6 +62,7 @@ const (
 
 // Config is the server / datastore configuration of one scenario (all derived from its seed).
 type Config struct {
+	Backend       string `json:"backend"`
 	Pipeline      bool `json:"pipeline"`
 	LOOpt         bool `json:"lo_opt"`
 	V2Check       bool `json:"v2_check"`
@@ -260,6 +264,9 @@ func (x *runner) exec(c call) obs {
 				items[2]++
 			default:
 				items[3]++
+				if os.Getenv("C20_DEBUG") == "3" {
+					fmt.Fprintln(os.Stderr, "batch item error:", it.GetError().GetInputError(), it.GetError().GetInternalError(), it.GetError().GetMessage())
+				}
 			}
 		}
 	case apiLO:
@@ -564,8 +571,31 @@ func runScenario(w *rec.Writer, seed uint64, tier string) {
 		Tuples: len(sh.S.Tuples), Small: sh.Small, Cfg: cfg}
 	ctx := context.Background()
 
+	// backend: memory, or (smaller data, one scenario in four) sqlite on a scratch file: real
+	// database/sql rows behind the iterators, real context propagation
+	cfg.Backend = "memory"
+	if len(sh.S.Tuples) <= 700 && r.Chance(1, 4) {
+		cfg.Backend = "sqlite"
+	}
+	desc.Cfg = cfg
 	g0 := settle(500 * time.Millisecond) // process-level baseline
-	ds := newCountDS(memory.New())
+	var inner storage.OpenFGADatastore
+	sqlitePath := ""
+	if cfg.Backend == "sqlite" {
+		b, err := storegen.NewSqlite()
+		if err != nil {
+			panic(err)
+		}
+		inner, sqlitePath = b.DS, b.Path
+	} else {
+		inner = memory.New()
+	}
+	defer func() {
+		if sqlitePath != "" {
+			storegen.RemoveDB(sqlitePath)
+		}
+	}()
+	ds := newCountDS(inner)
 	env, err := scen.NewEnvOn(ctx, ds, sh.S)
 	if err != nil {
 		ds.Close()
@@ -585,6 +615,7 @@ func runScenario(w *rec.Writer, seed uint64, tier string) {
 	}
 	w.Stat("scenarios", 1)
 	w.Stat("shape_"+kind, 1)
+	w.Stat("backend_"+cfg.Backend, 1)
 	w.Stat("tuples", len(sh.S.Tuples))
 
 	// ---- model side (small scenarios): outcome of the real Check without deadlines
@@ -745,6 +776,8 @@ func statMax(w *rec.Writer, key string, v int) {
 
 func main() {
 	o := rec.ParseFlags()
+	storegen.ScratchBase = filepath.Join(os.TempDir(), "c20")
+	defer storegen.Cleanup()
 	inject = os.Getenv("C20_INJECT")
 	if os.Getenv("C20_DEBUG") != "" {
 		debugSlow = func(n int, sites []string) { fmt.Fprintln(os.Stderr, "slow iterators:", n, sites) }
